@@ -220,6 +220,10 @@ def enum_scripts(tier):
     # multi-host frames
     hostsets = [["other", "main"], ["main", "other"], ["other", "dead"], ["dead", "other", "main"], ["blackhole", "main"], ["other", "other", "main"],
                 ["dead", "dead"], ["other", "blackhole"]]
+    # the third address of the pool is IPv6: stored in three non-canonical spellings, belonging to another accessory / dead / the paired one
+    for sp in (1, 2, 3):
+        for hs in (["main", "dead", "other"], ["dead", "main", "other"], ["dead", "dead", "main"], ["main", "main", "other"]):
+            yield {"hosts": hs, "script": [], "spelling": sp, "ops": [["open"], ["adv", 100], ["drop", "fin"], ["adv", 200], ["zc", "same"], ["adv", 200]]}
     for hs in hostsets:
         for script in ([], ["refused"] * 12, ["bad-sig", "refused", "refused", "refused", "refused", "refused", "refused"], ["wrong-id", "refused"] * 6):
             yield {"hosts": hs, "script": script, "ops": [["open"], ["adv", 100], ["zc", "same"], ["adv", 400], ["zc", "move-main"], ["adv", 300]]}
@@ -233,7 +237,7 @@ def histories(draw):
         roles[draw(st.integers(0, nh - 1))] = "main"
     script = draw(st.lists(st.sampled_from(ALL_OUTCOMES + ["ok", "ok", "refused", "refused"]), min_size=0, max_size=14))
     ops = [draw(st.sampled_from([["open"], ["sub"], ["call", "none"]]))] + draw(st.lists(OPS, min_size=2, max_size=16))
-    return {"hosts": roles, "script": script, "ops": ops, "k": draw(st.integers(0, 20))}
+    return {"hosts": roles, "script": script, "ops": ops, "k": draw(st.integers(0, 20)), "spelling": draw(st.sampled_from([0, 0, 1, 2, 3]))}
 
 
 SPEC = Property(
